@@ -6,7 +6,7 @@ cd /repo || exit 2
 if ! git diff --quiet; then echo "/repo has uncommitted changes"; exit 2; fi
 if ! git apply --3way "$patch" 2>/tmp/seedtest.err && ! git apply "$patch" 2>>/tmp/seedtest.err; then echo "patch does not apply:"; cat /tmp/seedtest.err; git checkout -- . ; exit 2; fi
 git reset -q 2>/dev/null
-( cd /verif && ./run "$prop" "$tier" ) 2>&1 | cut -c1-700 | grep -v '^  c[0-9]' | head -${SEEDLINES:-12}
+( cd ${VERIF_DIR:-/verif} && ./run "$prop" "$tier" ) 2>&1 | cut -c1-700 | grep -v '^  c[0-9]' | head -${SEEDLINES:-12}
 rc=${PIPESTATUS[0]}
 git checkout -- . ; git clean -fdq
 echo "seedtest $prop $(basename $(dirname $patch)): exit=$rc"
